@@ -178,23 +178,21 @@ def standard_plans(tier, borrow_limit_orders=True):
         ps.append(dict(plan="loan_only", depth=2, bp=8, qp=2, lend="margin", namounts=1, closes=CLOSES,
                        kinds=["limit"], sides=["buy"], loan_symbol=lsym, min_interest="0.01"))
     if tier == "thorough":
+        # sized by measurement (SYMX_JOBLOG): a full product of depth-3 plans x 8 order classes x all loan flag
+        # combinations did not finish within 45 minutes; the thorough tier adds the depth-3 plans below to the quick ones
         ps += [
-            dict(plan="single", depth=3, bp=8, qp=2, fee="none"),
-            dict(plan="single", depth=3, bp=2, qp=0, fee="pct"),
-            dict(plan="single", depth=3, bp=8, qp=8, kinds=["limit", "stop_limit"]),
-            dict(plan="single", depth=3, bp=0, qp=2, namounts=3, kinds=["market", "stop"]),
-            dict(plan="single", depth=3, bp=8, qp=2, liq="vsi", vols=VOLS, split=16),
-            dict(plan="pair", depth=3, bp=8, qp=2, second="all", split=16),
-            dict(plan="cross", depth=3, npairs=2, bp=8, qp=2, namounts=1, kinds=["stop", "stop_limit"], second="all"),
+            dict(plan="single", depth=3, bp=8, qp=2, fee="none", kinds=["market", "limit"]),
+            dict(plan="single", depth=3, bp=2, qp=0, fee="pct", kinds=["market", "limit"]),
+            # (depth-3 histories under VolumeShareImpact and depth-3 pair plans are run by the checks whose subject they
+            # are - C05 / C06 / C08 extras - their cost in every history check did not fit the thorough budget)
+            dict(plan="cross", depth=3, npairs=2, bp=8, qp=2, namounts=1, kinds=["stop", "stop_limit"]),
         ]
-        # (measured: a depth-3 loans history costs 10-70 CPU minutes per order class; the thorough tier runs the limit
-        # orders that use the loan - buy with borrowed quote, sell of borrowed base - and market orders without flags)
-        for ab in (False, True):
-            for ar in (False, True):
-                for lsym, sd in (("USD", "buy"), ("BTC", "sell")):
-                    ps.append(dict(plan="loans", depth=3, bp=8, qp=2, lend="margin", namounts=1, closes=CLOSES,
-                                   kinds=["limit"] if (ab or ar) else ["limit", "market"], sides=[sd],
-                                   auto_borrow=ab, auto_repay=ar, loan_symbol=lsym, min_interest="0.01", split=16))
+        for lsym in ("USD", "BTC"):
+            ps.append(dict(plan="loans", depth=3, bp=8, qp=2, lend="margin", namounts=1, closes=CLOSES,
+                           kinds=["market"], auto_borrow=False, auto_repay=False, loan_symbol=lsym,
+                           min_interest="0.01", split=16))
+        # (measured: depth-3 loans histories of limit orders with auto-borrow have a few sub-trees that run for 15-40 CPU
+        # minutes each; they are left to the depth-2 plans of the quick tier)
     return ps
 
 
@@ -208,10 +206,10 @@ BOUNDS_QUICK = (
     "VolumeShareImpact, limit orders, 3 amounts); loan_only plan (loan, bar, repay, repay again, limit buy; minimum "
     "interest 0.01); percentage fee 0.25 % with minimum 0.05")
 BOUNDS_THOROUGH = (
-    "quick plans plus: fee schemes none / percentage without minimum, precisions (2,0), (8,8), 3 amounts, "
-    "VolumeShareImpact at depth 3, pair with the second order from all 8 classes followed by cancels and a bar, loans "
-    "at depth 3 (repay twice | cancel | second loan, then a bar; limit orders on the side that uses the loan, market "
-    "orders without flags) with minimum interest 0.01, cross plan at depth 3 with stop / stop-limit orders")
+    "quick plans plus depth-3 histories: fee schemes none / percentage without minimum at precisions (8,2) / (2,0) "
+    "(market and limit orders), loans "
+    "at depth 3 (repay twice | cancel | second loan, then a bar; market orders without flags) with minimum interest "
+    "0.01, cross plan at depth 3 with stop / stop-limit orders")
 BASE_OUTSIDE = ["histories deeper than the stated plans", "more than two traded pairs per history in this check "
                 "(C03 runs three pairs through the whole dispatcher stack)", "Decimal context rounding at 28 digits"]
 BASE_ASSUMPTIONS = [
